@@ -1494,8 +1494,10 @@ func (in *Interp) builtin(fr *Frame, x *ssa.Call, b *ssa.Builtin, args []*Term, 
 		base := args[0]
 		if len(args) == 2 {
 			if elems := in.SliceElems(mem, args[1]); elems != nil {
+				in.Emit(fr, "append", x, "append", append([]*Term{base}, elems...), nil)
 				return &Term{Op: "append", Args: append([]*Term{base}, elems...), T: x.Type()}
 			}
+			in.Emit(fr, "appendslice", x, "append", args, nil)
 			if args[1].IsNil() {
 				return base
 			}
